@@ -113,6 +113,11 @@ def run_property(prop, tier, jobs, C, extra=None):
         if f is not None:
             known_hits.append((f, r))
             continue
+        if r.get('static_violation'):
+            # a frame fact decided on the source text: the offending site is the witness
+            path = write_replay_file(prop, r, {'confirmed': False, 'site': r.get('reason'), 'tried': 0})
+            violations.append((r, path, ' no-failing-input-found'))
+            continue
         verdict = replay_refuted(r)
         if verdict.get('confirmed'):
             path = write_replay_file(prop, r, verdict)
